@@ -18,7 +18,8 @@ EXPLANATION = (
     "kinds; per order type exactly the required validators are called; each validator contains its guards "
     "with the right orientation (None, <= 0, more than two decimals, price not on the market's ladder, the "
     "minimum stake / payout / liability conjunction) and every failing guard refuses the order; validation is "
-    "the first default control. Not decided: make_prices / get_nearest_price / price_ticks_away / "
+    "the first default control; (R3) the helpers that take the ladder as a parameter consult no fixed ladder table. "
+    "Not decided: make_prices / get_nearest_price / price_ticks_away / "
     "make_line_prices as arithmetic (rounding, idempotence, tick distances)."
 )
 
@@ -76,6 +77,23 @@ def run(ctx, rep):
               key(ar, None, "arange is half-open [start, stop)"), ar)
     ad = prog.func("utils.as_dec")
     rep.check(utext(ad.node.body[-1]) == "return Decimal(str(value))", "R1", key(ad, None, "decimal conversion through str (no binary noise)"), ad)
+
+    # ------------------------------------------------------------------ R3 ladder-parameterised helpers
+    # a helper that takes the ladder as a parameter must not consult one particular ladder's table
+    # (its result has to be a tick of the ladder it was asked about)
+    ladder_tables = {n for n in m.constants if n.isupper() and ("PRICES" in n or "CUTOFFS" in n)}
+    for q, param in (("utils.get_nearest_price", "cutoffs"), ("utils.price_ticks_away", "prices"), ("utils.make_prices", "cutoffs")):
+        fn = prog.func(q)
+        if param not in fn.params:
+            raise AnalysisError("%s: ladder parameter %s not found" % (q, param))
+        used = {n.id for n in walk_nodes(fn.node.body, ast.Name) if n.id in ladder_tables}
+        allowed = set()
+        if q == "utils.price_ticks_away":
+            d = [s for s in walk_nodes(fn.node.body, ast.Assign) if utext(s.targets[0]) == param]
+            if len(d) == 1 and isinstance(d[0].value, ast.IfExp) and utext(d[0].value.orelse) == param:
+                allowed = {n.id for n in ast.walk(d[0].value.body) if isinstance(n, ast.Name)}
+        rep.check(used <= allowed, "R3", key(fn, None, "result depends on the ladder passed in, not on one fixed ladder table"), fn, None,
+                  "references %s" % sorted(used - allowed))
 
     # ------------------------------------------------------------------ R2 OrderValidation
     ov = prog.cls("OrderValidation")
@@ -208,6 +226,9 @@ def run(ctx, rep):
 
 _U = "flumine/utils.py"
 MUTANTS = [
+    dict(id="c17-fast-path-fixed-ladder", file=_U, func="get_nearest_price",
+         old="    price = as_dec(price)\n    for cutoff, step in cutoffs:", new="    if price in PRICES_FLOAT:\n        return float(price)\n    price = as_dec(price)\n    for cutoff, step in cutoffs:",
+         expect=["R3"], why="classic ticks returned for the Betdaq ladder"),
     dict(id="c17-cutoff-changed", file=_U, old="    (6, 10),\n", new="    (6, 20),\n", expect=["R1"], why="0.05 ticks between 4 and 6"),
     dict(id="c17-cutoff-boundary", file=_U, old="    (30, 1),\n", new="    (40, 1),\n", expect=["R1"], why="1.0 ticks up to 40"),
     dict(id="c17-min-price", file=_U, old="\nMIN_PRICE = 1.01", new="\nMIN_PRICE = 1.0", expect=["R1"], why="1.00 accepted"),
